@@ -10,7 +10,7 @@ LEVEL_TEXT = ("The contract Tasks (each function executed exactly once and event
               "follow the exactly-once contract of ParallelFor.  The Internal backend's scheduler model (EnkiTS.tla: no touch of a task object after "
               "its release, negative control = the self-deleting task of the pinned code) is checked under all interleavings.  All TLC-generated "
               "scenarios (AsyncTask x 5 result types incl. an instrumented and a slow-to-construct one x 6 consumption flows x fast/slow function; "
-              "async() futures; bursts of 1..30000 closures owning heap state) run on the real code of all four backends, built with AddressSanitizer "
+              "async() futures; bursts of 1..30000 closures owning heap state; closures scheduled from inside a scheduled closure) run on the real code of all four backends, built with AddressSanitizer "
               "(library included); every recorded execution is validated by TLC against the contract; a sanitizer report or crash is an Abort line, "
               "which the contract does not allow.")
 LEVEL_NOTE = ("'eventually' is bounded (3-15 s of an idle caller); schedule() from several external threads at once and a tasking system initialised "
